@@ -145,6 +145,14 @@ def probes():
                       ('ts_threshold=0', b'ts_threshold'), ('epoch_threshold=5000', b'epoch_threshold')):
         mod_, cache_, pb_, keys_ = P[base]
         P['unset:' + base] = (mod_, cache_, unset(key) + pb_, keys_)
+    # the loop bound is the run's call-stack limit at every nesting level - not what is left of it where the loop happens to sit
+    def cl(cfg): cfg.call_limit = 11
+    def loopn(n):
+        body = push(b'\xff') + op('ADD_INTS') + b'\x02'
+        return push(bytes([n])) + op('LOOP') + u2(len(body)) + body + op('POP0')
+    P['loop_limit=exact'] = (cl, {}, loopn(11) + op('TRUE') + wr(b'Z'), [b'Z'])
+    over_ = loopn(12) + op('TRUE') + wr(b'Z')
+    P['loop_limit=over'] = (cl, {}, op('TRY_EXCEPT') + u2(len(over_)) + over_ + u2(len(op('FALSE') + wr(b'Z'))) + op('FALSE') + wr(b'Z'), [b'Z'])
     def lim(cfg): cfg.max_item_size = 40
     big = op('TRY_EXCEPT') + u2(len(push(bytes(41)))) + push(bytes(41)) + u2(len(op('FALSE') + wr(b'Z'))) + op('FALSE') + wr(b'Z')
     P['max_item_size=40'] = (lim, {}, big, [b'Z'])
@@ -161,7 +169,7 @@ def want_top(pname):
     if pname == 'flag10=on': return lambda ob: ob[2] == '7'
     Z = {'ts_threshold=0': 'LBff', 'ts_threshold=-5': 'LBff', 'ts_threshold=2000': 'LBff', 'ts_threshold=default': 'LB00',
          'epoch_threshold=5000': 'LBff', 'epoch_threshold=default': 'LB00', 'disallow_OP_EVAL': 'LB00', 'max_item_size=40': 'LB00',
-         'contract': 'LB6261', 'check_template plugin': 'LBff'}
+         'contract': 'LB6261', 'check_template plugin': 'LBff', 'loop_limit=exact': 'LBff', 'loop_limit=over': 'LB00'}
     if pname in Z: return lambda ob: ob[1][0][1] == Z[pname]
     if pname.startswith('eval_return=on'): return lambda ob: ob[1][0][1] is None
     if pname.startswith('eval_return=off'): return lambda ob: ob[1][0][1] == 'LBff'
